@@ -11,12 +11,13 @@
 #include "vsched.h"
 
 #include <sys/time.h>
+#include <algorithm>
 
 using namespace QtLogger;
 
 namespace {
 
-struct Params { std::string scenario; int p = 2, m = 2, backlog = 2, racer = 0, cycles = 1, glib = 1; } P;
+struct Params { std::string scenario, hist; int p = 2, m = 2, backlog = 2, racer = 0, cycles = 1, glib = 1, racerAt = -1; } P;
 
 std::string S(long long v) { return std::to_string(v); }
 
@@ -31,8 +32,33 @@ struct World {
     bool stopBegan = false, stopReturned = false, handlerDestroyed = false;
     int workerTid = -1;
     std::vector<std::string> acceptedBeforeStop, accepted;
-    vqt::VMutex *watchMutex = nullptr;  // handler mutex: must not be held by the worker while a sink runs (C03)
+    int workerInSink = 0;               // > 0 while the worker thread is inside a sink (C03: nobody may have to wait for a lock it holds then)
+    bool syncForever = false;           // the last stop of the scenario has returned: every later message must be handled synchronously
+    int opIndex = -1;
 } *W = nullptr;
+
+// The worker is "the thread most recently started through QThread::start()" — read right after moveToOwnThread(), so the harness
+// needs no access to private members of the code under test.
+int lastStartedTid() { return vqt::G().lastStarted ? vqt::G().lastStarted->m_tid : -1; }
+
+// C03 "the logging call never blocks on a sink": while the worker is inside a sink, no other thread may be parked on (or start
+// waiting for) a lock the worker holds. Works on the registry of all model locks, whatever the code under test calls them.
+void sinkEnter()
+{
+    if (W->workerTid < 0 || vs::self() != W->workerTid) return;
+    W->workerInSink++;
+    for (auto *l : vqt::G().locks)
+        if (l->heldBy(W->workerTid) && l->waiters > 0)
+            vs::violation("producer-blocks-on-sink", std::string("the worker runs a sink while holding a ") + l->kind + " that another thread is waiting for");
+}
+void sinkExit() { if (W->workerInSink > 0 && vs::self() == W->workerTid) W->workerInSink--; }
+void installContendOracle()
+{
+    vqt::G().onContend = [](vqt::LockState *l, int me) {
+        if (W && W->workerInSink > 0 && W->workerTid >= 0 && me != W->workerTid && l->heldBy(W->workerTid))
+            vs::violation("producer-blocks-on-sink", std::string("a thread has to wait for a ") + l->kind + " held by the worker while the worker is inside a sink");
+    };
+}
 
 bool parseMsg(const QString &s, int &prod, int &idx)
 {
@@ -65,11 +91,12 @@ struct RecSink : Sink {
         parseMsg(m.message(), prod, idx);
         Delivery d { prod, idx, m.attribute(QStringLiteral("seq_number")).isValid() ? m.attribute(QStringLiteral("seq_number")).toLongLong() : -1, vs::self(), m.message().toStdString() };
         if (W->handlerDestroyed) vs::violation("delivery-after-destruction", "a sink ran after the handler object had been destroyed");
-        if (W->watchMutex && W->workerTid >= 0 && vs::self() == W->workerTid && W->watchMutex->owner() == W->workerTid)
-            vs::violation("producer-blocks-on-sink", "the worker runs a sink while holding the handler mutex that every logging call needs");
+        sinkEnter();
         vqt::yield(tag);                // a sink of arbitrary duration
         out->push_back(d);
+        vs::progress();
         vqt::yield(tag);
+        sinkExit();
     }
 };
 
@@ -165,6 +192,8 @@ void scenarioC02B()
 struct Orig {
     QtMsgType type; QString message, fmt; std::string file, function, category; bool fileNull, functionNull, categoryNull; int line;
     QDateTime time; std::chrono::steady_clock::time_point steady; quint64 threadId; QVariantHash attrs; long start = 0, ret = 0;
+    bool exact = true;                  // false: the message object is created inside the logging call; time must lie in [tLo, tHi]
+    QDateTime tLo, tHi; std::chrono::steady_clock::time_point sLo, sHi;
 };
 struct FieldSink : Sink {
     std::map<std::string, Orig> *orig; std::vector<Delivery> *out;
@@ -175,8 +204,7 @@ struct FieldSink : Sink {
         std::string key = m.message().toStdString();
         int prod = -1, idx = -1; parseMsg(m.message(), prod, idx);
         if (W->workerTid >= 0 && vs::self() != W->workerTid && !W->stopBegan) vs::violation("sink-on-caller-thread", "a sink ran on thread T" + S(vs::self()) + " although the handler lives on worker T" + S(W->workerTid));
-        if (W->watchMutex && vs::self() == W->workerTid && W->watchMutex->owner() == W->workerTid)
-            vs::violation("producer-blocks-on-sink", "the worker runs a sink while holding the handler mutex that every logging call needs");
+        sinkEnter();
         vqt::yield("sink");
         auto it = orig->find(key);
         if (it == orig->end()) vs::violation("content", "sink received unknown message text '" + key + "'");
@@ -188,15 +216,21 @@ struct FieldSink : Sink {
             if (cs(m.file()) != o.file) bad("file");
             if (cs(m.function()) != o.function) bad("function");
             if (cs(m.category()) != o.category) bad("category");
-            if (m.time() != o.time) bad("time");
-            if (m.steadyTime() != o.steady) bad("steadyTime");
+            if (o.exact) { if (m.time() != o.time) bad("time"); if (m.steadyTime() != o.steady) bad("steadyTime"); }
+            else {
+                // taken when the call was made, not when the worker got to it: inside the producer's call interval (o.tHi is set when the call returns)
+                if (m.time() < o.tLo || (o.ret && m.time() > o.tHi)) bad("time");
+                if (m.steadyTime() < o.sLo || (o.ret && m.steadyTime() > o.sHi)) bad("steadyTime");
+            }
             if (m.threadId() != o.threadId) bad("threadId");
             if (m.formattedMessage() != (o.fmt.isNull() ? o.message : o.fmt)) bad("formattedMessage");
             if (m.isFormatted() != !o.fmt.isNull()) bad("isFormatted");
             if (m.attributes() != o.attrs) bad("attributes");
         }
         out->push_back({ prod, idx, -1, vs::self(), key });
+        vs::progress();
         vqt::yield("sink");
+        sinkExit();
     }
 };
 
@@ -225,16 +259,19 @@ void scenarioC03H()
     auto *h = new OwnThreadHandler<Pipeline>();
     h->append(SinkPtr(new FieldSink(origs, &W->a)));
     h->moveToOwnThread();
-    W->workerTid = h->m_thread->m_tid;
-    W->watchMutex = &h->m_mutex;
+    W->workerTid = lastStartedTid();
+    installContendOracle();
     std::vector<int> tids;
     for (int k = 0; k < p; k++) tids.push_back(vs::spawn([k, m, h, origs] {
+        // one caller-owned buffer per producer that is REUSED for every message (same address, new contents): what a binding
+        // that formats source locations into a scratch buffer does. Odd messages use fresh heap strings / null pointers instead.
+        char *reFile = (char *)malloc(32), *reFunc = (char *)malloc(32), *reCat = (char *)malloc(32);
         for (int i = 0; i < m; i++) {
-            // caller-owned buffers, freed (and poisoned) right after the call
-            bool nulls = (k + i) % 2 == 1;
-            char *file = nulls ? nullptr : strdup(("file" + S(k) + S(i) + ".cpp").c_str());
-            char *func = nulls ? nullptr : strdup(("void fn" + S(k) + S(i) + "()").c_str());
-            char *cat = strdup(i % 2 ? "" : ("cat" + S(k)).c_str());
+            // caller-owned buffers, freed or overwritten (and poisoned) right after the call
+            bool nulls = (k + i) % 2 == 1, reuse = !nulls;
+            char *file = nulls ? nullptr : reFile, *func = nulls ? nullptr : reFunc;
+            if (reuse) { snprintf(reFile, 32, "file%d%d.cpp", k, i); snprintf(reFunc, 32, "void fn%d%d()", k, i); }
+            char *cat = reCat; snprintf(reCat, 32, "%s", i % 2 ? "" : ("cat" + S(k) + S(i)).c_str());
             QString text = QStringLiteral("p%1:%2").arg(k).arg(i);
             QtMsgType ty = QtMsgType((k + 2 * i) % 4);
             {
@@ -249,15 +286,80 @@ void scenarioC03H()
                 h->process(msg);
                 (*origs)[text.toStdString()].ret = ++W->clock;
             }
-            if (file) { memset(file, 'X', strlen(file)); free(file); }
-            if (func) { memset(func, 'X', strlen(func)); free(func); }
-            memset(cat, 'X', strlen(cat)); free(cat);
+            if (file) memset(file, 'X', strlen(file));
+            if (func) memset(func, 'X', strlen(func));
+            memset(cat, 'X', strlen(cat));
         }
+        free(reFile); free(reFunc); free(reCat);
     }, "producer"));
     join(tids);
     W->stopBegan = true;
     h->resetOwnThread();
     delete h;
+    delete app;
+}
+
+// Scenario G: the same through a Logger moved to its own thread, entered the way Qt enters it (processMessage with the caller's
+// QMessageLogContext), all five message types. The message object is created inside the call, so time/steady time are checked
+// against the producer's call interval and the thread id against the producer's.
+void scenarioC03G()
+{
+    W = new World;
+    vqt::G().glibDispatcher = P.glib;
+    int p = P.p, m = P.m;
+    auto *origs = new std::map<std::string, Orig>;
+    vs::atEnd = [p, m, origs](const std::string &st) {
+        vs::observe("D: " + fmtDeliveries(W->a, true));
+        if (st != "done") return;
+        std::map<std::string, int> cnt;
+        for (auto &d : W->a) cnt[d.text]++;
+        for (auto &kv : *origs) if (cnt[kv.first] != 1) vs::violation("exactly-once", "message " + kv.first + " delivered " + S(cnt[kv.first]) + " times");
+        std::map<int, int> last;
+        for (auto &d : W->a) { if (last.count(d.prod) && d.idx <= last[d.prod]) vs::violation("producer-order", "producer " + S(d.prod) + ": message " + S(d.idx) + " delivered after " + S(last[d.prod])); last[d.prod] = d.idx; }
+        for (size_t i = 0; i < W->a.size(); i++) for (size_t j = i + 1; j < W->a.size(); j++) {
+            const Orig &x = (*origs)[W->a[i].text], &y = (*origs)[W->a[j].text];
+            if (y.ret && x.start && y.ret < x.start) vs::violation("real-time-order", "message " + W->a[j].text + " was accepted (call returned) before the call for " + W->a[i].text + " began, but is delivered after it");
+        }
+        for (auto &d : W->a) if (d.thread != W->workerTid) vs::violation("sink-on-caller-thread", "message " + d.text + " handled on T" + S(d.thread) + ", not on the worker");
+    };
+    auto *app = new vqt::VCoreApp();
+    auto *lg = new Logger;
+    lg->append(SinkPtr(new FieldSink(origs, &W->a)));
+    lg->moveToOwnThread();
+    W->workerTid = lastStartedTid();
+    installContendOracle();
+    std::vector<int> tids;
+    for (int k = 0; k < p; k++) tids.push_back(vs::spawn([k, m, lg, origs] {
+        char *reFile = (char *)malloc(32), *reFunc = (char *)malloc(32), *reCat = (char *)malloc(32);
+        for (int i = 0; i < m; i++) {
+            bool nulls = (k + i) % 3 == 2;
+            char *file = nulls ? nullptr : reFile, *func = nulls ? nullptr : reFunc;
+            if (!nulls) { snprintf(reFile, 32, "file%d%d.cpp", k, i); snprintf(reFunc, 32, "void fn%d%d()", k, i); }
+            snprintf(reCat, 32, "%s", i % 2 ? "default" : ("cat" + S(k) + S(i)).c_str());
+            QString text = QStringLiteral("p%1:%2").arg(k).arg(i);
+            QtMsgType ty = QtMsgType(4 - ((k + 2 * i) % 5));     // fatal, info? ... every type occurs; QtFatalMsg = 3 first for p0:0
+            {
+                QMessageLogContext ctx(file, 10 * k + i, func, reCat);
+                Orig o { ty, text, QString(), file ? file : "", func ? func : "", reCat, !file, !func, false, 10 * k + i,
+                         QDateTime(), {}, (quint64)reinterpret_cast<quintptr>(::QThread::currentThreadId()), QVariantHash(), 0, 0 };
+                o.exact = false; o.tLo = QDateTime::currentDateTime(); o.sLo = std::chrono::steady_clock::now();
+                o.start = ++W->clock;
+                (*origs)[text.toStdString()] = o;
+                lg->processMessage(ty, ctx, text);
+                Orig &r = (*origs)[text.toStdString()];
+                r.tHi = QDateTime::currentDateTime(); r.sHi = std::chrono::steady_clock::now();
+                r.ret = ++W->clock;
+            }
+            if (file) memset(file, 'X', strlen(file));
+            if (func) memset(func, 'X', strlen(func));
+            memset(reCat, 'X', strlen(reCat));
+        }
+        free(reFile); free(reFunc); free(reCat);
+    }, "producer"));
+    join(tids);
+    W->stopBegan = true;
+    lg->resetOwnThread();
+    delete lg;
     delete app;
 }
 
@@ -286,7 +388,7 @@ template<class H> void scenarioC04(int path)
     int seq = 0;
     for (int c = 0; c < cycles; c++) {
         h->moveToOwnThread();
-        W->workerTid = h->m_thread->m_tid;
+        W->workerTid = lastStartedTid();
         W->stopBegan = W->stopReturned = false;
         std::vector<std::string> before;
         for (int i = 0; i < backlog; i++) {
@@ -338,6 +440,117 @@ template<class H> void scenarioC04(int path)
     delete app;
 }
 
+// ------------------------------------------------------------------------------------------------ C04, lifecycle histories
+// A history is a string of operations performed by the main thread on ONE handler object; every history ends with the
+// destruction of the handler (and of the application object if one exists). Not only "start, log, stop" from the initial
+// state, but every order of creating/destroying the application object, moving, logging, resetting, quitting and running the
+// event loop up to a length bound:
+//   A create the QCoreApplication      a destroy it             M moveToOwnThread()       L log one message (main thread)
+//   R resetOwnThread()                 X quit() + exec(): the loop runs, returns, aboutToQuit is emitted
+//   E a nested event loop runs until the main queue is empty (deferred deletes happen, no aboutToQuit)
+// An optional racing producer logs P.racer messages, started when the main thread reaches operation P.racerAt.
+template<class H> void logOne(H *h, QtMsgType ty, const QString &text)
+{
+    QMessageLogContext ctx("f.cpp", 1, "fn", "cat");
+    if constexpr (std::is_same<H, Logger>::value) h->processMessage(ty, ctx, text);
+    else { LogMessage msg(ty, ctx, text); h->process(msg); }
+}
+
+template<class H> void scenarioC04X()
+{
+    W = new World;
+    vqt::G().glibDispatcher = P.glib;
+    const std::string hist = P.hist;
+    auto *sent = new std::vector<std::string>;      // accepted = the logging call has returned
+    vs::atEnd = [sent, hist](const std::string &st) {
+        vs::observe("D: " + fmtDeliveries(W->a, true));
+        if (st == "livelock" || st == "deadlock") {
+            char op = (W->opIndex >= 0 && W->opIndex < (int)hist.size()) ? hist[W->opIndex] : 'D';
+            vs::violation(std::string("stop-hangs:") + st + ":op-" + op + (vqt::VCoreApp::self ? "" : ":no-app"),
+                          "history " + hist + ": operation '" + std::string(1, op) + "' (index " + S(W->opIndex) + ") never returns (" + st + "); " + S((long long)W->a.size()) + " of " + S((long long)sent->size()) + " accepted messages delivered");
+        }
+        if (st != "done") return;
+        std::map<std::string, int> cnt;
+        for (auto &d : W->a) cnt[d.text]++;
+        for (auto &s : *sent) if (cnt[s] != 1) vs::violation(cnt[s] ? "duplicate" : "lost", "history " + hist + ": message " + s + " was accepted but delivered " + S(cnt[s]) + " times");
+        for (auto &kv : cnt) if (std::find(sent->begin(), sent->end(), kv.first) == sent->end()) vs::violation("phantom", "history " + hist + ": message " + kv.first + " delivered but never logged");
+        // per-thread order
+        std::map<int, int> last;
+        for (auto &d : W->a) { if (last.count(d.prod) && d.idx <= last[d.prod]) vs::violation("producer-order", "history " + hist + ": producer " + S(d.prod) + " message " + S(d.idx) + " delivered after " + S(last[d.prod])); last[d.prod] = d.idx; }
+    };
+    vqt::VCoreApp *app = nullptr;
+    auto *h = new H();
+    h->append(SinkPtr(new RecSink(&W->a, "sink")));
+    bool async = false, stopOnQuit = false;
+    int seq = 0, racerTid = -1;
+    size_t lastMove = hist.rfind('M');
+    auto delivered = [&](const std::string &t, int onThread = -1) { for (auto &d : W->a) if (d.text == t && (onThread < 0 || d.thread == onThread)) return true; return false; };
+    auto afterStop = [&](const char *what, size_t i, const std::vector<std::string> &before) {
+        if (W->workerTid >= 0 && !vs::isFinished(W->workerTid))
+            vs::violation(std::string("stop-leaves-thread-running:") + what, "history " + hist + ": " + what + " (index " + S((long long)i) + ") returned but the logger thread is still running: asynchronous logging was not stopped");
+        async = false; W->workerTid = -1; W->stopReturned = true;
+        if (lastMove == std::string::npos || i > lastMove) W->syncForever = true;
+        for (auto &s : before) if (!delivered(s)) vs::violation(std::string("stop-before-drained:") + what, "history " + hist + ": " + what + " (index " + S((long long)i) + ") returned before message " + s + ", accepted before it began, was delivered");
+    };
+    for (size_t i = 0; i < hist.size(); i++) {
+        W->opIndex = (int)i;
+        vs::progress();
+        if ((int)i == P.racerAt && P.racer > 0) {
+            int n = P.racer;
+            racerTid = vs::spawn([n, h, sent] {
+                for (int k = 0; k < n; k++) {
+                    QString text = QStringLiteral("p1:%1").arg(k);
+                    bool mustBeSync = W->syncForever;   // the last stop had returned before this call began
+                    logOne(h, QtInfoMsg, text);
+                    sent->push_back(text.toStdString());
+                    if (mustBeSync) {
+                        bool ok = false;
+                        for (auto &d : W->a) if (d.text == text.toStdString() && d.thread == vs::self()) ok = true;
+                        if (!ok) vs::violation("late-not-synchronous", "message " + text.toStdString() + " logged after the last stop had returned was not handled synchronously on the caller's thread");
+                    }
+                }
+            }, "racer");
+        }
+        switch (hist[i]) {
+        case 'A': if (!app) app = new vqt::VCoreApp(); break;
+        case 'a': if (app) { delete app; app = nullptr; stopOnQuit = false; } break;
+        case 'M':
+            h->moveToOwnThread();
+            if (!async) { async = true; W->workerTid = lastStartedTid(); stopOnQuit = app != nullptr; W->stopReturned = false; W->syncForever = false; }
+            break;
+        case 'L': {
+            QString text = QStringLiteral("p0:%1").arg(seq++);
+            bool wasAsync = async;
+            logOne(h, (seq % 2) ? QtDebugMsg : QtWarningMsg, text);
+            sent->push_back(text.toStdString());
+            if (!wasAsync && !delivered(text.toStdString(), vs::self()))
+                vs::violation("sync-not-delivered", "history " + hist + ": message " + text.toStdString() + " logged while no logger thread exists was not handled on the caller's thread before the call returned");
+            break; }
+        case 'R': { auto before = *sent; W->stopBegan = true; h->resetOwnThread(); afterStop("resetOwnThread()", i, before); break; }
+        case 'X':
+            if (app) {
+                auto before = *sent; bool stops = async && stopOnQuit;
+                if (stops) W->stopBegan = true;
+                vqt::VCoreApp::quit(); vqt::VCoreApp::exec();
+                if (stops) afterStop("application quit (aboutToQuit)", i, before);
+            }
+            break;
+        case 'E': if (app) vqt::VCoreApp::runLocalLoopUntilIdle(); break;
+        default: break;
+        }
+    }
+    W->opIndex = (int)hist.size();
+    if (racerTid >= 0) join({ racerTid });       // calling into an object while its destructor runs is the caller's bug: the racer is done before D
+    {
+        auto before = *sent;
+        W->stopBegan = true;
+        delete h;
+        W->handlerDestroyed = true; W->stopReturned = true;
+        for (auto &s : before) if (!delivered(s)) vs::violation("stop-before-drained:destructor", "history " + hist + ": the destructor returned before message " + s + " was delivered");
+    }
+    if (app) { vqt::VCoreApp::processEvents(); delete app; }
+}
+
 } // namespace
 
 int main(int argc, char **argv)
@@ -346,6 +559,8 @@ int main(int argc, char **argv)
     P.p = vx::argInt(argc, argv, "--p", 2); P.m = vx::argInt(argc, argv, "--m", 2);
     P.backlog = vx::argInt(argc, argv, "--backlog", 2); P.racer = vx::argInt(argc, argv, "--racer", 0);
     P.cycles = vx::argInt(argc, argv, "--cycles", 1); P.glib = vx::argInt(argc, argv, "--glib", 1);
+    P.hist = vx::argStr(argc, argv, "--hist", ""); P.racerAt = vx::argInt(argc, argv, "--racer-at", -1);
+    const char *histsFile = vx::argStr(argc, argv, "--hists-file", nullptr);
     vs::Options o;
     o.bound = vx::argInt(argc, argv, "--bound", 2);
     o.shard = vx::argInt(argc, argv, "--shard", 0); o.nshards = vx::argInt(argc, argv, "--nshards", 1);
@@ -358,26 +573,59 @@ int main(int argc, char **argv)
     if (s == "c02l") body = scenarioC02L;
     else if (s == "c02b") body = scenarioC02B;
     else if (s == "c03h") body = scenarioC03H;
+    else if (s == "c03g") body = scenarioC03G;
+    else if (s == "c04xh") body = [] { scenarioC04X<OwnThreadHandler<Pipeline>>(); };
+    else if (s == "c04xl") body = [] { scenarioC04X<Logger>(); };
     else if (s.compare(0, 4, "c04h") == 0) { int path = atoi(s.c_str() + 4); body = [path] { scenarioC04<OwnThreadHandler<Pipeline>>(path); }; }
     else if (s.compare(0, 4, "c04l") == 0) { int path = atoi(s.c_str() + 4); body = [path] { scenarioC04<Logger>(path); }; }
     else { fprintf(stderr, "unknown scenario\n"); return 3; }
 
-    vs::Result R = vs::explore(body, o);
     vx::Summary sum;
-    sum.cases = R.executions; sum.states = R.executions; sum.transitions = R.steps; sum.replays_ok = R.replaysOk;
-    sum.exhaustive = R.exhaustive;
-    for (auto &x : R.outcomes) sum.outcomes.insert(x);
-    sum.counters["deadlocks"] = R.deadlocks; sum.counters["livelocks"] = R.livelocks; sum.counters["blocked_lock_events"] = R.blockedLockEvents;
-    sum.bound = "scenario " + s + " p=" + S(P.p) + " m=" + S(P.m) + " backlog=" + S(P.backlog) + " racer=" + S(P.racer) + " cycles=" + S(P.cycles) + " glib=" + S(P.glib) + " deviations<=" + S(o.bound);
-    std::string pj = "\"scenario\":" + vx::jstr(s) + ",\"p\":" + S(P.p) + ",\"m\":" + S(P.m) + ",\"backlog\":" + S(P.backlog) + ",\"racer\":" + S(P.racer) + ",\"cycles\":" + S(P.cycles) + ",\"glib\":" + S(P.glib);
-    for (auto &v : R.violations) {
-        std::string c; for (size_t i = 0; i < v.choices.size(); i++) c += (i ? "," : "") + S(v.choices[i]);
-        sum.violate(s + ":" + v.key, "[" + sum.bound + "] " + v.what + " | observations: " + v.report, "{" + pj + ",\"choices\":" + vx::jstr(c) + "}");
+    auto account = [&](const vs::Result &R, const std::string &label) {
+        sum.cases += R.executions; sum.states += R.executions; sum.transitions += R.steps; sum.replays_ok += R.replaysOk;
+        sum.exhaustive = sum.exhaustive && R.exhaustive;
+        for (auto &x : R.outcomes) sum.outcomes.insert(x);
+        sum.counters["deadlocks"] += R.deadlocks; sum.counters["livelocks"] += R.livelocks; sum.counters["blocked_lock_events"] += R.blockedLockEvents;
+        std::string pj = "\"scenario\":" + vx::jstr(s) + ",\"p\":" + S(P.p) + ",\"m\":" + S(P.m) + ",\"backlog\":" + S(P.backlog) + ",\"racer\":" + S(P.racer) + ",\"cycles\":" + S(P.cycles) + ",\"glib\":" + S(P.glib)
+            + ",\"hist\":" + vx::jstr(P.hist) + ",\"racer-at\":" + S(P.racerAt);
+        for (auto &v : R.violations) {
+            std::string c; for (size_t i = 0; i < v.choices.size(); i++) c += (i ? "," : "") + S(v.choices[i]);
+            sum.violate(s + ":" + v.key, "[" + label + "] " + v.what + " | observations: " + v.report, "{" + pj + ",\"choices\":" + vx::jstr(c) + "}");
+        }
+        sum.violationCount += R.violationCount - (long long)R.violations.size();   // violate() counted the listed ones
+        for (auto &x : R.samples) sum.sample(vx::jstr(x), 3);
+        if (o.verbose) for (auto &x : R.outcomes) fprintf(stderr, "OUTCOME: %s\n", x.c_str());
+    };
+    if (histsFile) {
+        // one exploration per history of the file (lines "<hist> [racerAt racer]"); histories are dealt out to the shards
+        FILE *f = fopen(histsFile, "r");
+        if (!f) { fprintf(stderr, "cannot read %s\n", histsFile); return 3; }
+        char line[256]; long idx = 0; long done = 0;
+        int shard = o.shard, nshards = o.nshards;
+        o.shard = 0; o.nshards = 1;
+        while (fgets(line, sizeof line, f)) {
+            char hb[128]; int ra = -1, rn = 0;
+            int n = sscanf(line, "%127s %d %d", hb, &ra, &rn);
+            if (n < 1) continue;
+            if ((idx++ % nshards) != shard) continue;
+            struct timeval tv; gettimeofday(&tv, nullptr);
+            if (tv.tv_sec > o.deadline) { sum.exhaustive = false; break; }
+            P.hist = hb; P.racerAt = n >= 3 ? ra : -1; P.racer = n >= 3 ? rn : 0;
+            vs::Result R = vs::explore(body, o);
+            if (!R.engineError.empty()) { fprintf(stderr, "ENGINE: history %s: %s\n", hb, R.engineError.c_str()); return 3; }
+            account(R, "history " + P.hist + (P.racer ? " racer@" + S(P.racerAt) : "") + " glib=" + S(P.glib) + " deviations<=" + S(o.bound));
+            done++;
+        }
+        fclose(f);
+        sum.counters["histories"] = done;
+        sum.bound = "scenario " + s + " histories from file, glib=" + S(P.glib) + " deviations<=" + S(o.bound);
+        sum.print();
+        return 0;
     }
-    sum.violationCount = R.violationCount;
-    for (auto &x : R.samples) sum.sample(vx::jstr(x), 3);
-    if (o.verbose) for (auto &x : R.outcomes) fprintf(stderr, "OUTCOME: %s\n", x.c_str());
+    vs::Result R = vs::explore(body, o);
+    sum.bound = "scenario " + s + " p=" + S(P.p) + " m=" + S(P.m) + " backlog=" + S(P.backlog) + " racer=" + S(P.racer) + " cycles=" + S(P.cycles) + " glib=" + S(P.glib) + (P.hist.empty() ? "" : " hist=" + P.hist) + " deviations<=" + S(o.bound);
     if (!R.engineError.empty()) { fprintf(stderr, "ENGINE: %s\n", R.engineError.c_str()); return 3; }
+    account(R, sum.bound);
     sum.print();
     return 0;
 }
